@@ -3,6 +3,8 @@
 (the agent gets the property text, the short names of earlier changes for the property and a scratch worktree; nothing from /verif)"""
 import sys, json, os
 rnd, prop = sys.argv[1], sys.argv[2]
+naive = '--naive' in sys.argv                              # naive: the agent is told nothing about earlier changes (what a stranger would write)
+sys.argv = [a for a in sys.argv if a != '--naive']
 target = sys.argv[3] if len(sys.argv) > 3 else None     # optional: the file the change has to be made in
 props = {json.loads(l)['id']: json.loads(l) for l in open('/verif/properties.jsonl')}
 p = props[prop]
@@ -19,7 +21,7 @@ for d in earlier:
 files = '\n'.join('  - %s (%d earlier changes)' % (f, k) for f, k in touched.most_common())
 wt = '/tmp/w%s-%s' % (rnd, prop) + (('-' + os.path.basename(target).replace('.rs', '')) if target else '')
 where = ('\n   The core of your change MUST be in the file %s (helpers elsewhere are fine): this round looks at parts of the code that earlier rounds left alone.' % target) if target else ''
-print(f"""You are helping to test a verification effort for the Rust crate maciejhirsz/logos (a derive-macro lexer generator). Your job is to write ONE realistic, subtle change to logos that breaks the semantic property quoted below while the crate still compiles and its existing test suite still passes, plus a demonstration that exposes it.
+text = (f"""You are helping to test a verification effort for the Rust crate maciejhirsz/logos (a derive-macro lexer generator). Your job is to write ONE realistic, subtle change to logos that breaks the semantic property quoted below while the crate still compiles and its existing test suite still passes, plus a demonstration that exposes it.
 
 Work ONLY inside the scratch git worktree {wt} (a checkout of the logos repository). Do not read, list or touch /verif or /repo, and do not look at git history or other worktrees under /tmp. The sandbox has no network: always pass --offline to cargo (CARGO_NET_OFFLINE=true). Do not enable or rely on the cargo features `verif_hooks` / `verif_trace` or the files logos-codegen/src/verif.rs and src/verif_trace.rs (they are instrumentation; leave them alone).
 
@@ -40,3 +42,7 @@ WHAT TO PRODUCE
 6. While reading the code you may notice that the UNCHANGED sources already break the property (or something a user would expect along the same lines) for some definition or input. Do not repair it and do not build your change on it; check it if that is cheap, and describe it in a section headed SIDE FINDING in meta.txt (the definition or input, what happens, what should happen), and mention it in your final answer. Write "SIDE FINDING: none" if you noticed nothing.
 
 Keep the build output inside the worktree (default target dir). Your final answer should be a brief report: short name, files touched, trigger, and the three verification outcomes.""")
+if naive:
+    a = text.index('4. Earlier rounds'); b = text.index('5. Verify all three')
+    text = text[:a] + '4. Choose the mechanism and the place freely; the whole workspace is in scope (logos-codegen/src/**, src/*.rs, logos-cli/src/main.rs, logos-derive).\n' + text[b:]
+print(text)
